@@ -125,9 +125,8 @@ COMPAT_SWITCHES = frozenset([
     "foster-flag-reset", "table-text-current-node", "br-end-frameset-ok",
     "button-in-table", "table-text-doctype", "cdata-nul", "aaa-bookmark",
 ])
-# cdata-nul: html5lib's tokenizer turns NUL inside a CDATA section into U+FFFD; the token
-#   interface does not tell the tree builder whether a NUL came from a CDATA section, so the
-#   switch has to live in the tokenizer / the harness.
+# cdata-nul: html5lib's tokenizer turns NUL inside a CDATA section into U+FFFD; implemented by
+#   a tokenizer subclass chosen in _Parser.__init__.
 # implied-end-recursive: a RecursionError in html5lib, nothing to reproduce.
 # template: html5lib has no template support at all (no switch by design).
 UNIMPLEMENTED_COMPAT = frozenset(["implied-end-recursive"])
